@@ -77,7 +77,10 @@ class DanglingDetectionValidator(SigmaRuleValidator):
             parsed_condition = condition.parse(False)
             referenced_ids.update(self.condition_referenced_ids(parsed_condition, rule.detection))
 
-        return [DanglingDetectionIssue([rule], name) for name in detection_names - referenced_ids]
+        return [
+            DanglingDetectionIssue([rule], name)
+            for name in sorted(detection_names - referenced_ids)
+        ]
 
 
 @dataclass
@@ -142,7 +145,7 @@ class DanglingConditionValidator(SigmaRuleValidator):
                 self.condition_unknown_referenced_ids(parsed_condition, rule.detection)
             )
 
-        return [DanglingConditionIssue([rule], name) for name in unknown_detection_refs]
+        return [DanglingConditionIssue([rule], name) for name in sorted(unknown_detection_refs)]
 
 
 @dataclass
